@@ -3,7 +3,7 @@ import AwsVerif.Proofs.C20.Refs
 namespace AwsVerif.Threads
 
 theorem otherRel_code {s : State} {k : Nat} {a b : Th} (h : OtherRel s k a b) : b.code = a.code ∨ b.code = [] := by
-  rcases h with rfl | rfl | ⟨_, _, rfl⟩ | ⟨_, rfl⟩ <;> simp
+  rcases h with rfl | rfl | ⟨_, _, _, rfl⟩ | ⟨_, rfl⟩ <;> simp
 
 /-- membership-style side conditions -/
 structure Memb (P : Prog) (s : State) : Prop where
